@@ -212,7 +212,9 @@ export class RangeListManager {
           if (oldSharedKeyMap?.[k] !== undefined || newSharedKeyMap?.[k] !== undefined) {
             updatePathTree[i] = true
           } else {
-            const subTree = (oriUpdatePathTree as { [s: string]: UpdatePathTreeNode })[i] as
+            // the tree is keyed by list index, or by object key when an object is iterated
+            const treeKey = indexes === null ? i : indexes[i]!
+            const subTree = (oriUpdatePathTree as { [s: string]: UpdatePathTreeNode })[treeKey] as
               | { [s: string]: UpdatePathTreeNode }
               | undefined
               | true
@@ -225,6 +227,15 @@ export class RangeListManager {
             }
           }
         }
+        allowFastComparison = false
+      } else if (indexes !== null) {
+        // an object is iterated: re-key the tree by position, as the code below expects
+        const positional = new Array(newRawKeys.length) as UpdatePathTreeNode[]
+        for (let i = 0; i < newRawKeys.length; i += 1) {
+          const subTree = (oriUpdatePathTree as { [s: string]: UpdatePathTreeNode })[indexes[i]!]
+          if (subTree !== undefined) positional[i] = subTree
+        }
+        updatePathTree = positional
         allowFastComparison = false
       } else {
         updatePathTree = oriUpdatePathTree
